@@ -52,6 +52,14 @@ CHECKS = {
    text="find_marked_section is verified for line lists of unbounded length with a loop invariant over the scan position: under the property's precondition (one start marker followed by one end marker) the result is exactly (first line after the start marker incl. its .byte lines, line of the end marker), and a line that differs in value, register, mnemonic or follow-up directive is not a marker; match_bytes (bytes on one or several .byte lines) is verified on <= 3 lines x 4 parameters with symbolic bytes; the marker constants of both ISAs equal the documented ones; reduce_to_section's slicing incl. the 'no marker -> whole file' case is verified; transparency of non-instruction lines is carried by the C01/C03 contract instances. --lines expansion, decoys and the identity of the three input variants / noise insertion are checked end-to-end on the real inspect by a bounded unit.",
    note="Precondition = the property's input space (exactly one start and one end marker, mov-like lines have two operands); match_bytes structure-bounded; get_line_range and end-to-end clauses bounded.",
    tech=TECH + "; bounded end-to-end comparison of input variants"),
+ "C09": dict(cat="proof", ref="DESIGN.md section 4 C09/C10",
+   text="parse_file is verified for files of ANY number of lines (one parse_line call per non-blank line, in order, verbatim text, 1-based number + start offset); parse_line's classification is verified over all combinations of grammar outcomes (exactly one of comment/label/directive/instruction populated, in that priority; line and number verbatim; instruction failure -> ValueError); operand post-processing (x86: displacement in decimal/hex with sign, base, index, scale default 1, identifier offsets, immediates) is verified per dictionary shape with symbolic numeric literals. The pyparsing grammar itself is library-interpreted and outside the subset: 'every rendering is accepted and structured' is covered by a bounded render->parse round trip on the real parse_line/parse_file (every operand form x position x layout; files with interleaved non-instruction lines), exhaustive within the stated family.",
+   note="A: pyparsing results have the grammar's dict shapes; int(s, 0) by its model (differentially tested against CPython); grammar acceptance bounded.",
+   tech=TECH + "; bounded render-parse round trip for the grammar"),
+ "C10": dict(cat="proof", ref="DESIGN.md section 4 C09/C10",
+   text="parse_file is verified for files of ANY number of lines (one parse_line call per non-blank line, in order, verbatim text, 1-based number + start offset); parse_line's classification is verified over all combinations of grammar outcomes (exactly one of comment/label/directive/instruction populated, in that priority; line and number verbatim; instruction failure -> ValueError); operand post-processing (AArch64: immediate offset, register index with shift n -> scale 2**n only for lsl/uxtw/uxtb/sxtw, sp/zr get prefix x, pre-index '!', post-index immediate) is verified per dictionary shape with symbolic numeric literals. The pyparsing grammar itself is library-interpreted and outside the subset: 'every rendering is accepted and structured' is covered by a bounded render->parse round trip on the real parse_line/parse_file (every operand form x position x layout; files with interleaved non-instruction lines), exhaustive within the stated family.",
+   note="A: pyparsing results have the grammar's dict shapes; int(s, 0) by its model (differentially tested against CPython); grammar acceptance bounded.",
+   tech=TECH + "; bounded render-parse round trip for the grammar"),
 }
 NA = {
  "C17": "quantifies over file-system histories, crash points of cache writes and process races; no function contract decides it (needs fault enumeration / a file-system model)",
